@@ -45,10 +45,14 @@ func ReadIntoGraph(ctx context.Context, g storage.Graph, r io.Reader, b literal.
 		if err != nil {
 			return cnt, err
 		}
+		if err := g.AddTriples(ctx, []*triple.Triple{t}); err != nil {
+			return cnt, err
+		}
 		cnt++
-		g.AddTriples(ctx, []*triple.Triple{t})
 	}
-	return cnt, nil
+	// A line the scanner cannot deliver (too long) ends the loop like the end of
+	// the input does: tell them apart.
+	return cnt, scanner.Err()
 }
 
 // WriteGraph serializes the graph into the writer where each triple is
